@@ -5,7 +5,8 @@
    generated from the source on this run (gen/ThreadProg.v) - under an arbitrary schedule. If the
    order is "check the slot, build a local tokenizer, add all names, finalise, publish, return"
    (shape_safe), then every call that has returned obtained a complete tokenizer, so it answers
-   what it answers when run alone. Tie/ThreadProg.v proves shape_safe for the generated order.
+   what it answers when run alone. More generally any order that meets the decidable criterion safe_order is safe
+   (C20_threads_safe_any_order); Tie/ThreadProg.v proves safe_order for the generated order.
    For the order of the unrepaired code (publish before filling) a failing schedule exists
    (publish_first_refuted). *)
 Require Import Model.Base Model.Threads Proofs.Threads Gen.ThreadProg Tie.ThreadProg.
@@ -14,6 +15,15 @@ Theorem C20_threads_safe_partial : forall p, shape_safe p = true -> forall n sch
   In th (threads (run_sched p (start n) sched)) -> result th = None \/ result th = Some true.
 Proof. exact threads_safe. Qed.
 Print Assumptions C20_threads_safe_partial.
+
+(* any statement order: the criterion safe_order (decidable, Model/Threads.v) - a statement publishes or returns the thread's
+   own tokenizer only where it is complete (allocated, every adding loop of the program run, finalised), and changes it only
+   while it is unpublished - is enough, whatever else the order looks like (a second look at the slot under a lock, say) *)
+Require Import Proofs.ThreadsGen.
+Theorem C20_threads_safe_any_order : forall p, safe_order p = true -> forall n sched th,
+  In th (threads (run_sched p (start n) sched)) -> result th = None \/ result th = Some true.
+Proof. exact threads_safe_order. Qed.
+Print Assumptions C20_threads_safe_any_order.
 
 Theorem C20_threads_safe_for_this_source : forall n sched th,
   In th (threads (run_sched thread_prog (start n) sched)) -> result th = None \/ result th = Some true.
